@@ -80,6 +80,17 @@ def _is_instance(o):
     return hasattr(o, "__dict__") and type(o).__module__.split(".")[0] == "persim"
 
 
+def _sparse_state(o):
+    """a scipy sparse matrix as its caller sees it: the dense view AND the stored structure (explicitly stored zeros,
+    index arrays), which csgraph routines and `.nnz` expose"""
+    parts = [type(o).__name__, o.shape, o.toarray().tobytes(), int(getattr(o, "nnz", -1))]
+    for name in ("data", "indices", "indptr", "row", "col", "offsets"):
+        v = getattr(o, name, None)
+        if isinstance(v, np.ndarray):
+            parts.append((name, v.dtype.str, v.tobytes()))
+    return tuple(parts)
+
+
 class Snap:
     """a deep snapshot of an argument that keeps references to the original objects, so that `changed()` can re-read them"""
 
@@ -111,7 +122,7 @@ class Snap:
             self.frozen = repr(obj)
         elif hasattr(obj, "toarray") and hasattr(obj, "tocsr"):
             self.kind = "sparse"
-            self.frozen = (type(obj).__name__, obj.shape, obj.toarray().tobytes())
+            self.frozen = _sparse_state(obj)
 
     def changed(self, path="arg"):
         """None, or a description of the first difference between the snapshot and the objects now"""
@@ -134,8 +145,8 @@ class Snap:
             pass
         elif self.kind == "sparse":
             o = self.obj
-            if (type(o).__name__, o.shape, o.toarray().tobytes()) != self.frozen:
-                return "%s: sparse matrix changed" % path
+            if _sparse_state(o) != self.frozen:
+                return "%s: sparse matrix changed (dense view or stored structure: nnz / data / indices)" % path
         for i, k in enumerate(self.kids):
             d = k.changed("%s[%d]" % (path, i))
             if d:
@@ -632,6 +643,15 @@ def _(r):
     if form == "sparse":
         import scipy.sparse as sps
         A, B = sps.coo_matrix(A), sps.csr_matrix(B)
+        if r.random() < 0.5:
+            # an explicitly STORED zero in the CSR matrix (a non-edge written as 0: what `B[i, j] = 0` leaves behind);
+            # persim's documented limit is that it counts as an edge - whatever it does with it, the caller's matrix stays as it is
+            Bd = np.array(B.toarray())
+            zi = [(i, j) for i in range(len(Bd)) for j in range(len(Bd)) if i != j and Bd[i, j] == 0]
+            if zi:
+                i, j = r.choice(zi)
+                rows, cols = np.nonzero(Bd)
+                B = sps.csr_matrix((np.append(Bd[rows, cols], 0), (np.append(rows, i), np.append(cols, j))), shape=Bd.shape)
     return Case(f, [A, B], seeded=True)
 
 
